@@ -176,13 +176,14 @@ func checkC17(c *Ctx, r *Report) {
 
 // C18 — audio configuration codecs are exact over their domain (structural part).
 func checkC18(c *Ctx, r *Report) {
-	r.Explanation = "T-INV: aac.FrequencyTable and aac.ReverseFrequencies are mutual inverses (decided completely from the two literals); " +
+	r.Explanation = "T-SPEC: aac.FrequencyTable equals the sampling-frequency-index table of ISO/IEC 14496-3; T-INV: aac.FrequencyTable and aac.ReverseFrequencies are mutual inverses (decided completely from the two literals); " +
 		"W-BITS: DecodeAudioSpecificConfig is executed on a symbolic bit stream under every configuration (object types, all 16 frequency indices incl. the 24-bit escape, SBR extension), " +
 		"AudioSpecificConfig.Encode is executed on the decoded value and compared bit by bit with what was read; " +
 		"(W-TRUNC) in mp4 and aac no value narrowed to 8/16 bits for one destination is widened again and used in place of the original (sampling frequencies above 65535); (DEP) SetAACDescriptor builds the esds DecSpecificInfo from the encoded configuration and the sample entry from the same configuration. " +
 		"ADTS (sync search loop) is covered only by T-INV; numeric exhaustiveness over the domain belongs to another technique family."
 	wireAssumptions(r)
 	ruleTINV(c, r, "aac", "FrequencyTable", "ReverseFrequencies")
+	ruleSpecTable(c, r, "aac", "", "FrequencyTable", [][]int64{{0, 96000}, {1, 88200}, {2, 64000}, {3, 48000}, {4, 44100}, {5, 32000}, {6, 24000}, {7, 22050}, {8, 16000}, {9, 12000}, {10, 11025}, {11, 8000}, {12, 7350}}, "ISO/IEC 14496-3 Table 1.18 (sampling frequency index)")
 	for _, sp := range aacCodecs {
 		reportCodec(r, c, analyseCodec(c, sp))
 	}
